@@ -294,6 +294,12 @@ def lenient_class(rev):
     return "none"
 
 
+def norm_what(w):
+    """text of an exception of the library without the location of the source tree and the line number:
+    /repo/src/Covariances/ACovFunc.cpp@58: Wrong ... -> src/Covariances/ACovFunc.cpp: Wrong ..."""
+    return re.sub(r"^\S*?/((?:src|include)/[^@\s]+)@\d+:", r"\1:", w)
+
+
 def judge_objects(ck, recs, tag, workers=1):
     """TLC judges the consistency of every object returned by a loader (TraceNeutralFault)"""
     w = ck.work
@@ -334,7 +340,7 @@ def evaluate(ck, files, outs, sani, tag):
                   "how": "write file_text to a file and load it with the createFromNF (or CSV / grid reader) of the class in the sanitizer build"}
         found = None
         if oc in ("crash", "crash-in-batch", "timeout", "oom", "exception"):
-            found = dict(rec, kind=oc, stage=o.get("stage", "load"), what=sk or o.get("what", "")[:60] or ("signal%s" % o.get("signal")))
+            found = dict(rec, kind=oc, stage=o.get("stage", "load"), what=sk or norm_what(o.get("what", ""))[:60] or ("signal%s" % o.get("signal")))
         elif sk:
             found = dict(rec, kind="sanitizer", stage=msgs[0][0], what=sk)
         elif oc == "ok":
